@@ -663,6 +663,8 @@ func c17Staggered(r *vlib.Run, i int, rng *rand.Rand, keys []*vlib.Key, keyFiles
 	}
 	defer fC.Stop()
 	firstYes := rng.Intn(4) != 0
+	// the second prompt (about C alone) is approved as well in some cases: two separate recordings in one client run
+	secondYes := rng.Intn(5) < 2
 	pr, pw, _ := os.Pipe()
 	defer pw.Close()
 	go func() {
@@ -673,6 +675,10 @@ func c17Staggered(r *vlib.Run, i int, rng *rand.Rand, keys []*vlib.Key, keyFiles
 			pw.WriteString("n\n")
 		}
 		time.Sleep(4500 * time.Millisecond) // prompt 2 (about C) opens ~2 s after prompt 1 was answered
+		if secondYes {
+			pw.WriteString("y\n")
+			time.Sleep(3 * time.Second)
+		}
 		pw.WriteString("n\nn\nn\n")
 	}()
 	addrA, addrC := fmt.Sprintf("127.0.0.1:%d", portA), fmt.Sprintf("127.0.0.1:%d", portC)
@@ -692,6 +698,31 @@ func c17Staggered(r *vlib.Run, i int, rng *rand.Rand, keys []*vlib.Key, keyFiles
 	after, _ := os.ReadFile(khPath)
 	d := map[string]interface{}{"first_prompt_answer_yes": firstYes, "host_A": addrA, "host_C_delayed": addrC, "delay_ms": delay,
 		"A_contacted": contacted(fA), "C_contacted": contacted(fC), "known_hosts_after": vlib.Trunc(string(after), 2000), "exit": res.Exit}
+	d["second_prompt_answer_yes"] = secondYes
+	if secondYes {
+		r.Count("staggered_cases_with_two_approved_batches", 1)
+		if res.TimedOut {
+			r.Inconclusive("dcat-watchdog")
+			return
+		}
+		switch {
+		case !contacted(fC) || firstYes != contacted(fA):
+			r.Violation("trusted-server-not-contacted", d)
+		case !strings.Contains(string(after), knownhosts.Normalize(addrC)+" ") || (firstYes && !strings.Contains(string(after), knownhosts.Normalize(addrA)+" ")):
+			r.Violation("newly-trusted-host-not-recorded", d)
+		case !firstYes && strings.Contains(string(after), knownhosts.Normalize(addrA)+" "):
+			r.Violation("refused-host-recorded", d)
+		default:
+			for _, l := range lines {
+				if !strings.Contains("\n"+string(after), "\n"+l+"\n") {
+					d["lost_line"] = l
+					r.Violation("unrelated-known-hosts-entry-lost", d)
+					break
+				}
+			}
+		}
+		return
+	}
 	if contacted(fC) || strings.Contains(string(after), knownhosts.Normalize(addrC)+" ") {
 		// what the servers saw and what was recorded stands, even if the client
 		// had to be stopped by the watchdog afterwards
